@@ -429,3 +429,1174 @@ def expand_model(M):
                             "dyn": [ex.subst(a, env_) for a in e["dyn"]],
                             "steady": [ex.subst(a, env_) for a in e["steady"]] if e["steady"] else None})
     return {"names": names, "eqs": eqs}
+
+
+# ---------------------------------------------------------------------------
+# Recipes and rendering
+# ---------------------------------------------------------------------------
+
+@st.composite
+def recipe_strategy(draw, macros=True, noise=True):
+    b = st.booleans()
+    r = {
+        "noise": draw(st.lists(st.integers(0, 999), min_size=8, max_size=48)),
+        "gnoise": draw(st.lists(st.integers(0, 999), min_size=4, max_size=32)),
+        "noise_level": draw(st.sampled_from([0, 1, 1, 2])) if noise else 0,
+        "for_eq": False, "for_decl": False, "for_sum": False, "tokens_via": 0,
+        "n_subs": 0, "n_ctx": 0, "n_if": 0, "use_list": False, "ctx_names": False, "extra_ctx": False,
+        "allbut": draw(b),
+    }
+    if macros:
+        r.update({
+            "for_eq": draw(b), "for_decl": draw(b), "for_sum": draw(b),
+            "tokens_via": draw(st.sampled_from([0, 0, 1, 2, 3])),
+            "n_subs": draw(st.sampled_from([0, 0, 1, 2])),
+            "n_ctx": draw(st.sampled_from([0, 0, 1, 2])),
+            "n_if": draw(st.sampled_from([0, 0, 1, 2])),
+            "use_list": draw(b), "ctx_names": draw(b), "extra_ctx": draw(b),
+        })
+    return r
+
+
+class _Chooser:
+    def __init__(self, noise):
+        self.noise = list(noise) or [0]
+        self.i = 0
+
+    def pick(self, n):
+        v = self.noise[self.i % len(self.noise)] + (self.i // len(self.noise))
+        self.i += 1
+        return v % n
+
+    def of(self, seq):
+        return seq[self.pick(len(seq))]
+
+    def chance(self, num, den):
+        return self.pick(den) >= den - num
+
+
+KW = {
+    "tvars": ["!transition-variables", "!variables", "!transition_variables"],
+    "tshocks": ["!transition-shocks", "!shocks", "!transition_shocks"],
+    "teqs": ["!transition-equations", "!equations", "!transition_equations"],
+    "mvars": ["!measurement-variables", "!measurement_variables"],
+    "mshocks": ["!measurement-shocks", "!measurement_shocks"],
+    "meqs": ["!measurement-equations", "!measurement_equations"],
+    "pars": ["!parameters"],
+    "exog": ["!exogenous-variables", "!exogenous_variables"],
+    "log": ["!log-variables", "!log_variables"],
+    "allbut": ["!all-but", "!all_but"],
+    "subs": ["!substitutions"],
+}
+COMMENT_WORDS = ["note", "see eq. 3", "x = y;", "!for ?c = a, b !do", "!end", "!if flag !then", "it's", '"', "<k0>", "$s$",
+                 "!!", "100%", "#", "TODO: fix", "a+b*c", "!equations", "shift(x, -1)", "...", "diff(y)", "%"]
+CTL_NAMES = {0: ["?c", "?(c)", "?x1"], 1: ["?n", "?(n)", "?j2"], 2: ["?k", "?(k)", "?i"]}
+DECOY_NUM = "777.5"
+ATOMS = ("num", "var", "ctl", "tab", "fn", "pf")
+
+
+def canon(node):
+    return json.dumps(node, sort_keys=True, separators=(",", ":"))
+
+
+def need_depth(n, minp):
+    """Parenthesis nesting the renderer needs for an AST (without redundant parentheses)."""
+    op = n[0]
+    if op in ("num", "var", "ctl", "tab"):
+        d, p = 0, 5
+    elif op == "neg":
+        d, p = need_depth(n[1], 4), 1
+    elif op in ("add", "sub"):
+        d, p = max(need_depth(n[1], 1), need_depth(n[2], 2)), 1
+    elif op in ("mul", "div"):
+        d, p = max(need_depth(n[1], 2), need_depth(n[2], 3)), 2
+    elif op == "pow":
+        d, p = max(need_depth(n[1], 5), need_depth(n[2], 5)), 4
+    elif op in ("fn", "pf"):
+        d, p = 1 + need_depth(n[2], 0), 5
+    elif op == "fsum":
+        d, p = need_depth(n[4], 2), 1
+    elif op == "sum":
+        d, p = max(need_depth(t, 2) for t in n[2]), 1
+    else:
+        raise ValueError(op)
+    return d + (1 if p < minp else 0)
+
+
+def _paren_depth(text):
+    d = m = 0
+    for ch in text:
+        if ch == "(":
+            d += 1
+            m = max(m, d)
+        elif ch == ")":
+            d -= 1
+    return m
+
+
+class Renderer:
+    """Turns (M, recipe) into source text + context.  Pure function of its inputs."""
+
+    def __init__(self, M, recipe, canonical=False, inject=None):
+        self.M = M
+        self.r = recipe
+        self.canonical = canonical
+        self.inject = inject or {}
+        self.ch = _Chooser(recipe["noise"])
+        self.cg = _Chooser(recipe["gnoise"])
+        self.level = 0 if canonical else recipe["noise_level"]
+        self.context = {}
+        self.labels = set()
+        self.subs_map, self.subs_defs, self.subs_mode = {}, {}, {}
+        self.ctx_map = {}
+        self.if_terms = set()
+        self.flags = {"flag_a": self.ch.of([True, False]), "num_b": self.ch.pick(6), "mode_c": self.ch.of(["abc", "xyz"])}
+        self.nctx = 0
+        self.pf_shifted_arg = False
+
+    # ---- whitespace and comments ---------------------------------------------
+    def _comment_text(self):
+        n = 1 + self.cg.pick(3)
+        return " ".join(self.cg.of(COMMENT_WORDS) for _ in range(n))
+
+    def _line_comment(self, allow_bang=False):
+        kinds = ["% ", "# ", "... ", "...", "\\ ", "%% "]
+        if allow_bang:
+            kinds += ["%! ", "#! "]
+        k = self.cg.of(kinds)
+        self.labels.add("cm_" + {"% ": "pct", "# ": "hash", "... ": "dots", "...": "dots", "\\ ": "backslash",
+                                 "%% ": "pct", "%! ": "bang", "#! ": "bang"}[k])
+        if k in ("%! ", "#! "):
+            return " " + k + re.sub(r'[!"<>]', "", self._comment_text()) + "\n"
+        if k == "...":
+            return " ...\n"
+        return " " + k + self._comment_text() + "\n"
+
+    def _block_comment(self):
+        o = self.cg.of(["%", "#"])
+        self.labels.add("cm_block")
+        body = self._comment_text() + self.cg.of(["", "\n", "\n   more text\n"])
+        return o + "{" + self.cg.of(["", " "]) + body.replace(o + "}", "") + self.cg.of(["", " "]) + o + "}"
+
+    def g(self):
+        """Optional gap inside an expression or statement."""
+        if self.level == 0:
+            return ""
+        k = self.cg.pick(24 if self.level == 1 else 12)
+        if k < 2:
+            return " "
+        if k == 2:
+            return self.cg.of(["  ", "\t", "\n   ", "\n"])
+        if k == 3:
+            return self._line_comment() + "  "
+        if k == 4:
+            return self._block_comment()
+        return ""
+
+    def gs(self):
+        """Gap that must contain white space."""
+        if self.level == 0:
+            return " "
+        k = self.cg.pick(12)
+        if k == 0:
+            return self._line_comment() + " "
+        if k == 1:
+            return " " + self._block_comment() + " "
+        if k == 2:
+            return self.cg.of(["\n", "  ", "\t", "\n\n    "])
+        return " "
+
+    def G(self, bang=True):
+        """Gap between statements, entries and blocks (a separator is added by the caller)."""
+        if self.level == 0:
+            return "\n"
+        k = self.cg.pick(10)
+        if k == 0:
+            return self._line_comment(allow_bang=bang and not self.inject.get("no_bang"))
+        if k == 1:
+            return "\n" + self._block_comment() + "\n"
+        if k == 2:
+            return self.cg.of(["\n\n", "\n    ", "\n\t", " \n"])
+        if k == 3 and self.level == 2:
+            return self._line_comment() + self._line_comment()
+        return "\n"
+
+    def sp(self):
+        """Plain white space (headers and conditions)."""
+        return " " if self.level == 0 else self.cg.of([" ", " ", "  "])
+
+    # ---- context ----------------------------------------------------------------
+    def _ctx_name(self, prefix):
+        self.nctx += 1
+        return f"{prefix}{self.nctx}"
+
+    def _cond(self):
+        """A condition over the context with its truth value."""
+        templates = ["flag_a", "not flag_a", "num_b > 2", "num_b == 3", "num_b != 3", "mode_c == 'abc'",
+                     'mode_c == "xyz"', "flag_a and num_b < 4", "len(mode_c) == 3", "num_b + 1 >= 4 or flag_a",
+                     "True", "0"]
+        text = self.ch.of(templates)
+        for k, v in self.flags.items():
+            if k in text:
+                self.context[k] = v
+        truth = bool(eval(text, {}, dict(self.flags)))      # Python semantics, as documented for !if
+        return text, truth
+
+    def _if(self, real, decoy, tag):
+        """real/decoy: text chunks; returns an !if construct that selects `real`."""
+        cond, truth = self._cond()
+        self.labels.add("if_" + tag)
+        a, b, s = "!if", "!then", self.sp
+        k = self.ch.pick(3)
+        if truth:
+            if k == 0:
+                self.labels.add("if_no_else")
+                return f"{a}{s()}{cond}{s()}{b}{self.gs()}{real}{self.gs()}!end"
+            return f"{a}{s()}{cond}{s()}{b}{self.gs()}{real}{self.gs()}!else{self.gs()}{decoy}{self.gs()}!end"
+        if k == 0 and tag != "term":
+            self.labels.add("if_no_else")
+            return f"{a}{s()}{cond}{s()}{b}{self.gs()}{decoy}{self.gs()}!end{self.gs()}{real}"
+        return f"{a}{s()}{cond}{s()}{b}{self.gs()}{decoy}{self.gs()}!else{self.gs()}{real}{self.gs()}!end"
+
+    # ---- numbers, shifts, names ----------------------------------------------------
+    def _num(self, v, c):
+        key = repr(v)
+        if key in self.ctx_map and not c.get("in_ctx"):
+            name, form = self.ctx_map[key]
+            self.labels.add("ctx_const")
+            if isinstance(v, int):
+                self.context[name] = v - 1 if form else v
+                inner = f"{name}+1" if form else name
+            else:
+                self.context[name] = v / 2 if form else v
+                inner = f"{name}*2" if form else name
+            o, cl = self.ch.of([("<", ">"), ("<", ">"), ("<<", ">>"), ("< ", " >")])
+            return o + inner + cl
+        if self.inject.get("kind") == "sci" and isinstance(v, float):
+            self.labels.add("unsure_sci")
+            return self.ch.of([f"{v:e}", f"{v:E}", repr(v).lstrip("0") if 0 < v < 1 else f"{v:.3e}"])
+        if self.inject.get("kind") == "sci" and isinstance(v, int):
+            self.labels.add("unsure_sci")
+            return self.ch.of([f"{v}.", f"{v}e0", f"{v}.0E+00"])
+        if isinstance(v, int) and self.ch.chance(1, 6):
+            return f"{v}.0"
+        return repr(v)
+
+    def _shift(self, k, c):
+        if isinstance(k, list):
+            _, lv, sign = k
+            ctl = c["bound"][lv]
+            body = ("-" if sign < 0 else self.ch.of(["", "+"])) + ctl
+            if self.inject.get("kind") == "curly_ctl":
+                self.labels.add("unsure_curly_ctl")
+                return "{" + body + "}"
+            self.labels.add("sh_ctl")
+            return "[" + body + "]"
+        if k == 0:
+            if c.get("shiftable") and self.ch.chance(1, 12):
+                self.labels.add("sh_zero")
+                return self.ch.of(["{0}", "[0]"])
+            return ""
+        body = str(k)
+        if k > 0 and self.ch.chance(1, 2):
+            body = "+" + body
+            self.labels.add("sh_plus")
+        if self.level and self.cg.chance(1, 6):
+            body = self.cg.of([" ", ""]) + body + " "
+        o, cl = self.ch.of([("{", "}"), ("[", "]")])
+        self.labels.add("sh_curly" if o == "{" else "sh_square")
+        return o + body + cl
+
+    def _name(self, name, c):
+        return ex.fill_name(name, c["bound"])
+
+    def _ctl_name(self, lv, c, alone):
+        opts = list(CTL_NAMES[lv])
+        if alone and not c["bound"]:
+            opts.append("?")
+        n = self.ch.of(opts)
+        self.labels.add("ctl_plain" if n == "?" else "ctl_paren" if "(" in n else "ctl_named")
+        return n
+
+    def _tokens_text(self, toks):
+        via = self.r["tokens_via"]
+        if via == 1:
+            n = self._ctx_name("toks")
+            self.context[n] = list(toks)
+            self.labels.add("ctx_tokens")
+            return self.ch.of([f"<{n}>", f"< {n} >", f"<<{n}>>"])
+        if via == 2:
+            n = self._ctx_name("dct")
+            self.context[n] = {t: i for i, t in enumerate(toks)}
+            self.labels.add("ctx_tokens")
+            return f"<{n}.keys()>"
+        if via == 3 and all(t.isdigit() for t in toks) and [int(t) for t in toks] == list(range(int(toks[0]), int(toks[0]) + len(toks))):
+            self.labels.add("ctx_tokens")
+            return f"<range({toks[0]},{int(toks[-1]) + 1})>"
+        return self.ch.of([", ", " ", ","]).join(toks)
+
+    def _for_header(self, ctl, toks):
+        s = self.sp
+        tt = self._tokens_text(toks)
+        if ctl == "?" and self.ch.chance(1, 2):
+            return f"!for{s()}{tt}{s()}!do"
+        return f"!for{s()}{ctl}{s()}{self.ch.of(['=', '=', ':'])}{s()}{tt}{s()}!do"
+
+    # ---- expressions ------------------------------------------------------------------
+    def rx(self, n, minp, c):
+        key = canon(n)
+        if not c.get("in_pf") or self.inject.get("kind") == "subs_in_pf":
+            if key in self.subs_map and not c.get("no_subs"):
+                return self._use_sub(n, key, minp, c)
+        if not c.get("in_pf") and key in self.if_terms and not c.get("in_if") and not c.get("no_subs"):
+            inner = self.rx(n, 0, dict(c, in_if=True))
+            return "(" + self._if(inner, DECOY_NUM, "term") + ")"
+        s, p = self._rx(n, c)
+        if p < minp:
+            return "(" + self.g() + s + self.g() + ")"
+        if not c.get("in_pf") and n[0] not in ("num",) and self.ch.chance(1, 14):
+            self.labels.add("redundant_parens")
+            return "(" + s + ")"
+        return s
+
+    def _use_sub(self, n, key, minp, c):
+        name = self.subs_map[key]
+        if name not in self.subs_defs:
+            mode = self.ch.pick(3)
+            body = self.rx(n, 0, {"bound": {}, "no_subs": True})
+            self.subs_mode[name] = mode
+            self.subs_defs[name] = "(" + body + ")" if mode == 0 else body
+        mode = self.subs_mode[name]
+        self.labels.add("subs")
+        ref = self.cg.of(["$" + name + "$", "$" + name + "$", "$ " + name + " $"]) if self.level else "$" + name + "$"
+        natural = 1 if n[0] in ("add", "sub", "neg", "fsum", "sum") else 2 if n[0] in ("mul", "div") else 4 if n[0] == "pow" else 5
+        if mode == 0 or (mode == 2 and minp <= natural and minp <= 1) or (c.get("in_pf") and natural == 5):
+            return ref
+        return "(" + ref + ")"
+
+    def _rx(self, n, c):
+        op = n[0]
+        g = self.g
+        if op == "num":
+            return self._num(n[1], c), 5
+        if op == "var":
+            if not isinstance(n[2], list) and n[2] != 0 and c.get("in_pf"):
+                self.pf_shifted_arg = True
+            return self._name(n[1], c) + self._shift(n[2], dict(c, shiftable=n[1] in self.shiftable)), 5
+        if op == "ctl":
+            return c["bound"][n[1]], 5
+        if op == "tab":
+            return self._tab(n, c), 5
+        if op == "neg":
+            return "-" + g() + self.rx(n[1], 4, c), 1
+        if op in ("add", "sub"):
+            return self.rx(n[1], 1, c) + g() + ("+" if op == "add" else "-") + g() + self.rx(n[2], 2, c), 1
+        if op in ("mul", "div"):
+            return self.rx(n[1], 2, c) + g() + ("*" if op == "mul" else "/") + g() + self.rx(n[2], 3, c), 2
+        if op == "pow":
+            sym = "^"
+            if self.inject.get("kind") == "starstar":
+                sym = "**"
+                self.labels.add("unsure_starstar")
+            return self.rx(n[1], 5, c) + g() + sym + g() + self.rx(n[2], 5, c), 4
+        if op == "fn":
+            return n[1] + "(" + g() + self.rx(n[2], 0, c) + g() + ")", 5
+        if op == "pf":
+            return self._pf(n, c), 5
+        if op == "fsum":
+            return self._fsum(n, c), 1
+        if op == "sum":
+            return self._sum(n, c), 1
+        raise ValueError(op)
+
+    def _tab(self, n, c):
+        _, lv, table = n
+        name = None
+        for k, v in self.context.items():
+            if k.startswith("tab") and v == table:
+                name = k
+        if name is None:
+            name = self._ctx_name("tab")
+            self.context[name] = dict(table)
+        self.labels.add("ctx_tab")
+        q = self.ch.of(['"', "'"])
+        return f"<{name}[{q}{c['bound'][lv]}{q}]>"
+
+    def _pf(self, n, c):
+        _, name, arg, k = n
+        spelled = self.ch.of(ex.PF_SPELLINGS[name])
+        self.labels.add("pf_" + spelled)
+        deep = self.inject.get("kind") in ("deep", "subs_in_pf")
+        a = self.rx(arg, 0, dict(c, in_pf=True))
+        if not deep and (need_depth(arg, 0) > 1 or ex.has_op(arg, ("pf", "fsum", "sum"))):
+            raise AssertionError(f"harness: pseudo-function argument outside the documented pattern: {a!r}")
+        if self.inject.get("kind") == "pf_space":
+            spelled += " "
+            self.labels.add("unsure_pf_space")
+        text = spelled + "(" + self.g() + a + self.g()
+        if k is not None:
+            ks = str(k) if k < 0 or self.ch.chance(1, 2) else "+" + str(k)
+            text += "," + self.g() + ks + self.g()
+            self.labels.add("pf_explicit_shift" if k < 0 else "pf_lead")
+        else:
+            self.labels.add("pf_default_shift")
+        return text + ")"
+
+    def _sum(self, n, c):
+        _, sign, terms = n
+        out = ""
+        for i, t in enumerate(terms):
+            lead = sign if (i or sign == "-" or self.ch.chance(1, 2)) else ""
+            out += lead + self.g() + self.rx(t, 2, c) + self.g()
+        return out
+
+    def _fsum(self, n, c):
+        _, sign, lv, toks, term = n
+        if not self.r["for_sum"] or c.get("in_pf"):
+            return self._sum(self._expand_fsum(n, c), c)
+        ctl = self._ctl_name(lv, c, alone=True)
+        self.labels.add("for_sum")
+        if c["bound"]:
+            self.labels.add("for_depth_%d" % (len(c["bound"]) + 1))
+        c2 = dict(c, bound=dict(c["bound"], **{lv: ctl}))
+        body = sign + self.g() + self.rx(term, 2, c2)
+        return self._for_header(ctl, toks) + self.gs() + body + self.gs() + "!end"
+
+    def _expand_fsum(self, n, c):
+        _, sign, lv, toks, term = n
+        return ["sum", sign, [ex.subst(term, {lv: t}, keep_fsum=True) for t in toks]]
+
+    # ---- statements ---------------------------------------------------------------------
+    def _desc(self, text, c, entry=False):
+        text = ex.fill_name(text, c["bound"])
+        if not text:
+            return '""' + self.gs() if self.ch.chance(1, 10) else ""
+        return '"' + text + '"' + (self.gs() if entry or self.level else " ")
+
+    def _version(self, pair, c):
+        asg = ":=" if self.ch.chance(1, 3) else "="
+        if asg == ":=":
+            self.labels.add("assign_colon")
+        return self.rx(pair[0], 0, c) + self.g() + asg + self.g() + self.rx(pair[1], 0, c)
+
+    def stmt(self, e, c):
+        out = self._desc(e["desc"], c) + self._version(e["dyn"], c)
+        if e["steady"]:
+            self.labels.add("steady_variant")
+            out += self.g() + "!!" + self.g() + self._version(e["steady"], c)
+        return out + self.g() + ";"
+
+    # ---- planning -------------------------------------------------------------------------
+    def _plan(self):
+        M, r, fam = self.M, self.r, self.M["fam"]
+        self.shiftable = {q["name"] for k in ("tvars", "mvars", "exog") for q in M[k]}
+        if fam:
+            self.shiftable.add(fam["var"])
+            self.shiftable |= {ex.fill_name(fam["var"], e) for e in _fam_envs(fam)}
+        plan = []
+        for it in M["items"]:
+            if it["type"] == "eq":
+                plan.append({"kind": it["kind"], "mode": "stmt", "eq": it["eq"], "lhs": it["eq"]["dyn"][0]})
+            elif r["for_eq"]:
+                plan.append({"kind": "t", "mode": "forfam", "eq": it["eq"], "override": it["override"]})
+            else:
+                for env in _fam_envs(fam):
+                    ov = it["override"]
+                    if ov and _env_int(ov["env"]) == env:
+                        e = ov["eq"]
+                    else:
+                        e = {"desc": ex.fill_name(it["eq"]["desc"], env),
+                             "dyn": [ex.subst(a, env, keep_fsum=True) for a in it["eq"]["dyn"]],
+                             "steady": [ex.subst(a, env, keep_fsum=True) for a in it["eq"]["steady"]] if it["eq"]["steady"] else None}
+                    plan.append({"kind": "t", "mode": "stmt", "eq": e})
+        self.plan = plan
+        # candidate nodes
+        subs_c, num_c, term_c = [], [], []
+
+        def visit(n, in_pf, top):
+            key = canon(n)
+            if n[0] == "num":
+                if repr(n[1]) not in num_c:
+                    num_c.append(repr(n[1]))
+            elif not in_pf:
+                if n[0] not in ("ctl", "tab") and not ex.uses_levels(n) and key not in subs_c:
+                    subs_c.append(key)
+                if n[0] not in ("ctl", "tab", "var") and not top and key not in term_c:
+                    term_c.append(key)
+            for ch_ in ex.children(n):
+                visit(ch_, in_pf or n[0] == "pf", False)
+        for p in plan:
+            eqs = [p["eq"]] + ([p["override"]["eq"]] if p.get("override") else [])
+            for e in eqs:
+                for a in e["dyn"] + (e["steady"] or []):
+                    visit(a, False, True)
+        for i in range(r["n_subs"]):
+            if subs_c:
+                key = subs_c[self.ch.pick(len(subs_c))]
+                self.subs_map.setdefault(key, ["s1", "aux_b", "S_3"][len(self.subs_map)])
+        for i in range(r["n_ctx"]):
+            if num_c:
+                key = num_c[self.ch.pick(len(num_c))]
+                self.ctx_map.setdefault(key, (f"k{len(self.ctx_map) + 1}", self.ch.pick(2)))
+        self.if_eq, self.if_decl, self.if_block = set(), set(), set()
+        for i in range(r["n_if"]):
+            cat = self.ch.of(["eq", "decl", "block", "term"])
+            v = self.ch.pick(997)
+            if cat == "term" and term_c:
+                key = term_c[v % len(term_c)]
+                if key not in self.subs_map:
+                    self.if_terms.add(key)
+            elif cat == "eq":
+                self.if_eq.add(v)
+            elif cat == "decl":
+                self.if_decl.add(v)
+            else:
+                self.if_block.add(v)
+
+    # ---- equations ----------------------------------------------------------------------------
+    def _eq_statements(self):
+        """[(kind, text)] in source order."""
+        out = []
+        fam = self.M["fam"]
+        nst = sum(1 for p in self.plan if p["mode"] == "stmt")
+        wrap = {v % nst for v in self.if_eq} if nst else set()
+        i = 0
+        for p in self.plan:
+            c = {"bound": {}}
+            if p["mode"] == "stmt":
+                text = self.stmt(p["eq"], c)
+                if i in wrap:
+                    lhs_names = [n[1] for n in ex.walk(p["eq"]["dyn"][0]) if n[0] == "var" and n[1] in self.shiftable]
+                    decoy = (lhs_names[0] if lhs_names else "987") + " = 987654;"
+                    text = self._if(text, decoy, "eq")
+                i += 1
+                out.append((p["kind"], text))
+                continue
+            # family written as (nested) loops
+            toks = fam["tokens"]
+            has_inner_for = self.r["for_sum"] and any(ex.has_op(a, ("fsum",)) for a in p["eq"]["dyn"] + (p["eq"]["steady"] or []))
+            ctl0 = self._ctl_name(0, c, alone=len(toks) == 1 and not has_inner_for)
+            bound = {0: ctl0}
+            if len(toks) == 2:
+                bound[1] = self._ctl_name(1, c, alone=False)
+                self.labels.add("for_nested")
+            cb = {"bound": bound}
+            body = self.stmt(p["eq"], cb)
+            ov = p.get("override")
+            if ov:
+                env = _env_int(ov["env"])
+                parts = []
+                neg = self.ch.chance(1, 3)
+                for lv in sorted(env):
+                    tok = env[lv]
+                    q = self.ch.of(["'", '"'])
+                    if tok.isdigit() and self.ch.chance(1, 2):
+                        parts.append(f"{bound[lv]} {'!=' if neg else '=='} {tok}")
+                    else:
+                        parts.append(f"{q}{bound[lv]}{q} {'!=' if neg else '=='} {q}{tok}{q}")
+                cond = (" or " if neg else " and ").join(parts)
+                special = self.stmt(ov["eq"], {"bound": {}})
+                a, b = (body, special) if neg else (special, body)
+                s = self.sp
+                body = f"!if{s()}{cond}{s()}!then{self.gs()}{a}{self.gs()}!else{self.gs()}{b}{self.gs()}!end"
+                self.labels.add("if_override_in_for")
+            text = body
+            for lv in sorted(bound, reverse=True):
+                text = self._for_header(bound[lv], toks[lv]) + self.gs() + text + self.gs() + "!end"
+            self.labels.add("for_eq")
+            depth = len(bound) + (1 if ov else 0)
+            if has_inner_for:
+                depth = max(depth, len(bound) + 1)
+            self.labels.add("macro_depth_%d" % depth)
+            out.append(("t", text))
+        return out
+
+    # ---- declarations -----------------------------------------------------------------------------
+    def _entry(self, desc, name, mark, c):
+        return self._desc(desc, c, entry=True) + self._name(name, c) + ("`" + mark if mark else "")
+
+    def _decl_units(self, listed):
+        """kind -> list of unit texts.  `listed`: names that carry the list mark."""
+        M, fam = self.M, self.M["fam"]
+        units = {k: [] for k in ("tvars", "tshocks", "pars", "exog", "mvars", "mshocks")}
+        nscalar = sum(len(M[k]) for k in units)
+        wrap = {v % nscalar for v in self.if_decl} if nscalar else set()
+        j = 0
+        for k in units:
+            qs = M[k]
+            if self.r["ctx_names"] and k in ("pars", "tshocks", "exog", "mshocks") and qs and \
+                    all(q["desc"] == "" and q["name"] not in listed for q in qs) and not any((j + d) in wrap for d in range(len(qs))):
+                n = self._ctx_name("names")
+                self.context[n] = [q["name"] for q in qs] if self.ch.chance(1, 2) else {q["name"]: 1 for q in qs}
+                self.labels.add("ctx_names")
+                units[k].append(f"<{n}>")
+                j += len(qs)
+                continue
+            for q in qs:
+                text = self._entry(q["desc"], q["name"], self.mark if q["name"] in listed else None, {"bound": {}})
+                if j in wrap:
+                    text = self._if(text, "zzdecoy_%d" % j, "decl")
+                j += 1
+                units[k].append(text)
+        if fam:
+            groups = [("tvars", fam["var"], fam["var_desc"])]
+            if fam["shock"]:
+                groups.append(("tshocks", fam["shock"]["pat"], fam["shock"]["desc"]))
+            if fam["par"]:
+                groups.append(("pars", fam["par"]["pat"], fam["par"]["desc"]))
+            for k, pat, desc in groups:
+                levels = sorted(lv for lv in range(len(fam["tokens"])) if "{%d}" % lv in pat)
+                members = []
+                for env in _fam_envs(fam):
+                    nm = ex.fill_name(pat, env)
+                    if nm not in [m_[0] for m_ in members]:
+                        members.append((nm, ex.fill_name(desc, env)))
+                marked = members[0][0] in listed
+                if self.r["for_decl"]:
+                    c = {"bound": {}}
+                    for lv in levels:
+                        c["bound"][lv] = self._ctl_name(lv, c, alone=len(levels) == 1)
+                    desc_t = desc
+                    for lv in range(len(fam["tokens"])):
+                        if lv not in levels:
+                            desc_t = desc_t.replace("{%d}" % lv, fam["tokens"][lv][0])
+                    if desc_t != desc:
+                        # description refers to a level the name does not depend on: written by hand
+                        for nm, d in members:
+                            units[k].append(self._entry(d, nm, self.mark if marked else None, {"bound": {}}))
+                        continue
+                    text = self._entry(desc, pat, self.mark if marked else None, c) + self.ch.of([",", "", ";", " "])
+                    for lv in sorted(levels, reverse=True):
+                        text = self._for_header(c["bound"][lv], fam["tokens"][lv]) + self.gs() + text + self.gs() + "!end"
+                    self.labels.add("for_decl")
+                    units[k].insert(self.ch.pick(len(units[k]) + 1), text)
+                else:
+                    pos = self.ch.pick(len(units[k]) + 1)
+                    for nm, d in reversed(members):
+                        units[k].insert(pos, self._entry(d, nm, self.mark if marked else None, {"bound": {}}))
+        return units
+
+    def _listing(self, texts):
+        """Join declaration units / names with one of the accepted separators."""
+        sepc = self.ch.of(["", ",", ";", ","])
+        self.labels.add({"": "sep_space", ",": "sep_comma", ";": "sep_semicolon"}[sepc])
+        out = ""
+        for i, t in enumerate(texts):
+            last = i == len(texts) - 1
+            sc = sepc if (not last or self.ch.chance(1, 2)) else ""
+            out += t + sc + (self.G() if self.ch.chance(1, 2) else " ")
+        return out
+
+    def _blocks_of(self, key, units, tag):
+        """Split a kind's units into one or two blocks."""
+        if not units:
+            if self.ch.chance(1, 16):
+                self.labels.add("empty_block")
+                return [(tag, self._kw(key) + "\n")]
+            return []
+        cut = len(units)
+        if len(units) >= 2 and self.ch.chance(1, 3):
+            cut = 1 + self.ch.pick(len(units) - 1)
+            self.labels.add("block_split")
+        out = []
+        for part in (units[:cut], units[cut:]):
+            if part:
+                body = self._listing(part) if tag == "decl" else "".join(t + self.G() for t in part)
+                out.append((tag + ":" + key, self._kw(key) + self.gs() + body))
+        return out
+
+    def _kw(self, key):
+        k = self.ch.of(KW[key])
+        self.labels.add("kw_underscore" if "_" in k else "kw_short" if k in ("!variables", "!shocks", "!equations") else "kw_long")
+        return k
+
+    # ---- the whole source ------------------------------------------------------------------------------
+    def render(self):
+        M, r = self.M, self.r
+        E = expand_model(M)
+        self._plan()
+        # log status
+        loggable = [q for k in ("tvars", "mvars", "exog") for q in E["names"][k]]
+        allbut = r["allbut"]
+        listed = [q["name"] for q in loggable if bool(q["log"]) != allbut]
+        self.mark = self.ch.of(["lg", "L1", "main"])
+        via_list = set()
+        if r["use_list"] and listed:
+            famvars = {ex.fill_name(M["fam"]["var"], e) for e in _fam_envs(M["fam"])} if M["fam"] else set()
+            for nm in listed:
+                if nm in famvars:
+                    continue
+                if self.ch.chance(2, 3):
+                    via_list.add(nm)
+            if famvars and famvars <= set(listed) and self.ch.chance(2, 3):
+                via_list |= famvars
+        stmts = self._eq_statements()
+        units = self._decl_units(via_list)
+        blocks = []
+        for k in ("tvars", "tshocks", "pars", "exog", "mvars", "mshocks"):
+            blocks += self._blocks_of(k, units[k], "decl")
+        # log block(s)
+        explicit = [nm for nm in listed if nm not in via_list]
+        log_items = list(explicit)
+        if via_list:
+            log_items.insert(self.ch.pick(len(log_items) + 1), "!list(`" + self.mark + ")")
+            self.labels.add("list")
+        if log_items or allbut or self.ch.chance(1, 4):
+            parts = [log_items]
+            if len(log_items) >= 2 and self.ch.chance(1, 4):
+                cut = 1 + self.ch.pick(len(log_items) - 1)
+                parts = [log_items[:cut], log_items[cut:]]
+                self.labels.add("log_split")
+            for part in parts:
+                head = self._kw("log") + ((self.gs() + self._kw("allbut")) if allbut else "")
+                blocks.append(("log", head + self.gs() + self._listing(part)))
+            self.labels.add("log_allbut" if allbut else "log_listed")
+        for kind, key in (("t", "teqs"), ("m", "meqs")):
+            blocks += self._blocks_of(key, [t for k, t in stmts if k == kind], "eqs")
+        if self.subs_defs:
+            defs = []
+            for name, body in self.subs_defs.items():
+                defs.append(name + self.g() + self.ch.of([":=", "="]) + self.g() + body + self.g() + ";")
+            blocks += self._blocks_of("subs", defs, "subs")
+        # block-level !if on small declaration blocks
+        cand = [i for i, (tag, _) in enumerate(blocks) if tag in ("decl:pars", "decl:exog", "decl:tshocks", "decl:mshocks")]
+        for v in sorted(self.if_block):
+            if cand:
+                i = cand[v % len(cand)]
+                tag, text = blocks[i]
+                if not text.startswith("!if"):
+                    blocks[i] = (tag, self._if(text, self._kw(tag.split(":")[1]) + " zzdecoy_b\n", "block"))
+        # order: shuffle kinds' positions, keep the relative order inside a tag
+        keys = [(self.ch.pick(1000), i) for i in range(len(blocks))]
+        order = [i for _, i in sorted(keys)]
+        slots = [blocks[i][0] for i in order]
+        queues = {}
+        for tag, text in blocks:
+            queues.setdefault(tag, []).append(text)
+        if order != sorted(order):
+            self.labels.add("blocks_reordered")
+        texts = [queues[tag].pop(0) for tag in slots]
+        head = self.G(bang=False) if self.level and self.cg.chance(1, 2) else ""
+        src = head + "".join(t + ("" if t.endswith("\n") else "\n") + (self.G() if self.level else "") for t in texts)
+        if self.ch.chance(1, 4):
+            src = src.rstrip("\n ")
+            if "%" in src.rsplit("\n", 1)[-1] or "#" in src.rsplit("\n", 1)[-1] or "..." in src.rsplit("\n", 1)[-1]:
+                src += "\n"
+        if r["extra_ctx"]:
+            self.context.setdefault("unused_n", 3)
+            self.context.setdefault("unused_list", ["q1", "q2"])
+        if self.pf_shifted_arg:
+            self.labels.add("pf_shifted_arg")
+        self.source = src
+        return self
+
+
+MACRO_LABELS = ("for_eq", "for_decl", "for_sum", "if_eq", "if_decl", "if_block", "if_term", "if_override_in_for",
+                "subs", "list", "ctx_const", "ctx_tokens", "ctx_names", "ctx_tab")
+
+
+def _nontrivial(labels):
+    return any(lb in labels for lb in MACRO_LABELS) or "pf_shifted_arg" in labels
+
+
+# ---------------------------------------------------------------------------
+# Observation of the model under test and the oracle
+# ---------------------------------------------------------------------------
+
+def _ir():
+    import irispie as ir
+    return ir
+
+
+def _kinds():
+    from irispie.quantities import QuantityKind as QK
+    return {"tvars": QK.TRANSITION_VARIABLE, "mvars": QK.MEASUREMENT_VARIABLE, "tshocks": QK.TRANSITION_SHOCK,
+            "mshocks": QK.MEASUREMENT_SHOCK, "pars": QK.PARAMETER, "exog": QK.EXOGENOUS_VARIABLE,
+            "ant": QK.ANTICIPATED_SHOCK_VALUE, "tstd": QK.TRANSITION_STD, "mstd": QK.MEASUREMENT_STD}
+
+
+def expected_tables(E):
+    nm = {k: sorted(q["name"] for q in E["names"][k]) for k in E["names"]}
+    nm["ant"] = sorted("ant_" + n for n in nm["tshocks"])
+    nm["tstd"] = sorted("std_" + n for n in nm["tshocks"])
+    nm["mstd"] = sorted("std_" + n for n in nm["mshocks"])
+    desc = {q["name"]: q["desc"] for k in E["names"] for q in E["names"][k]}
+    log = {q["name"]: bool(q["log"]) for k in ("tvars", "mvars", "exog") for q in E["names"][k]}
+    return nm, desc, log
+
+
+def observe(m):
+    kinds = _kinds()
+    names = {k: sorted(m.get_names(kind=v)) for k, v in kinds.items()}
+    allnames = sorted(m.get_names())
+    desc = {q.human: q.description for q in m.get_quantities()}
+    log = {str(k): v for k, v in dict(m.get_log_status()).items()}
+    eqdesc = [e.description for e in m.get_dynamic_equation_objects()]
+    return {"names": names, "all": allnames, "desc": desc, "log": log, "eqdesc": eqdesc}
+
+
+def compare_tables(col, obs, E, tag):
+    nm, desc, log = expected_tables(E)
+    ok = True
+    for k in nm:
+        ok &= col.check(obs["names"][k] == nm[k], f"names:{k}", lambda: f"{tag}: get_names(kind={k}) = {obs['names'][k]}, declared {nm[k]}")
+    allexp = sorted(n for k in nm for n in nm[k])
+    ok &= col.check(obs["all"] == allexp, "names:all", lambda: f"{tag}: get_names() = {obs['all']}, expected {allexp}")
+    if not ok:
+        return False
+    bad = {n: (obs["desc"].get(n), d) for n, d in desc.items() if obs["desc"].get(n) != d}
+    col.check(not bad, "descriptions:quantities", lambda: f"{tag}: descriptions (got, declared) differ: {bad}")
+    col.check(obs["log"] == log, "log_status", lambda: f"{tag}: get_log_status() = {obs['log']}, declared {log}")
+    return True
+
+
+def make_data(E, seed, ncols):
+    """name -> row of positive values; parameters constant over columns."""
+    import numpy as np
+    nm, _, _ = expected_tables(E)
+    rng = np.random.default_rng(seed)
+    rows = {}
+    for k in sorted(nm):
+        for n in nm[k]:
+            if k in ("pars", "tstd", "mstd"):
+                rows[n] = np.full(ncols, float(rng.uniform(0.6, 1.6)))
+            elif k in ("tshocks", "mshocks", "ant"):
+                rows[n] = rng.uniform(0.05, 0.5, ncols)
+            else:
+                rows[n] = rng.uniform(0.6, 1.6, ncols)
+    return rows
+
+
+def shift_span(E):
+    lo = hi = 0
+    for e in E["eqs"]:
+        for a in e["dyn"] + (e["steady"] or []):
+            try:
+                x, y = ex.shift_range(a)
+            except Exception:  # noqa: BLE001
+                x, y = -12, 12
+            lo, hi = min(lo, x), max(hi, y)
+    return lo, hi
+
+
+def reference_values(E, rows, points):
+    """ref[version][j][p] = (value, err) or None (not judged)."""
+    tsh = {q["name"] for q in E["names"]["tshocks"]}
+    out = {"dyn": [], "steady": []}
+    for e in E["eqs"]:
+        for version in ("dyn", "steady"):
+            pair = e["dyn"] if version == "dyn" or not e["steady"] else e["steady"]
+            ant = version == "dyn" and e["kind"] == "t"
+            vals = []
+            for t in points:
+                def lookup(name, shift, t=t, ant=ant):
+                    v = rows[name][t + shift]
+                    if ant and name in tsh:
+                        v = v + rows["ant_" + name][t + shift]
+                    return v
+                try:
+                    l, el = ex.evaluate(pair[0], lookup)
+                    r_, er = ex.evaluate(pair[1], lookup)
+                    v = r_ - l
+                    err = el + er + 4 * ex.EPS * (abs(l) + abs(r_))
+                    if not math.isfinite(v) or ERR_K * err > 1e-7 * max(1.0, abs(v)):
+                        vals.append(None)
+                    else:
+                        vals.append((v, err))
+                except ex.NotFinite:
+                    vals.append(None)
+            out[version].append(vals)
+    return out
+
+
+def equator_values(m, E, rows, t0, bucket):
+    """got[version][i][p]: scalar evaluations at t0, t0+1 and one array evaluation at (t0-1, t0+2)."""
+    import numpy as np
+    inv = m._invariant
+    n2q = m.create_name_to_qid()
+    ncols = len(next(iter(rows.values())))
+    data = np.full((len(inv.quantities), ncols), np.nan)
+    for n, row in rows.items():
+        data[n2q[n], :] = row
+    out = {}
+    for version, eq in (("dyn", inv._plain_dynamic_equator), ("steady", inv._plain_steady_equator)):
+        a = api(f"{bucket}:{version}:scalar", eq.eval, data, t0)
+        b = api(f"{bucket}:{version}:scalar", eq.eval, data, t0 + 1)
+        c = api(f"{bucket}:{version}:array", eq.eval, data, np.array([t0 - 1, t0 + 2]))
+        vals = []
+        for i in range(len(a)):
+            ci = np.broadcast_to(np.asarray(c[i], dtype=float), (2,))
+            vals.append([float(a[i]), float(b[i]), float(ci[0]), float(ci[1])])
+        out[version] = vals
+    return out
+
+
+POINT_OFFSETS = (0, 1, -1, 2)
+
+
+def _close(g, ref):
+    if ref is None:
+        return True
+    v, err = ref
+    return math.isfinite(g) and abs(g - v) <= RTOL * abs(v) + ERR_K * err + 1e-300
+
+
+def compare_values(col, got, ref, E, tag, source):
+    """Match equations kind by kind; any permutation inside a kind that matches every judged value is accepted."""
+    import itertools
+    labels = []
+    neq = len(E["eqs"])
+    for version in ("dyn", "steady"):
+        if not col.check(len(got[version]) == neq, f"equations:count:{version}",
+                         lambda: f"{tag}: {len(got[version])} {version} equations, expected {neq}\n{source}"):
+            return labels
+    idx = {"t": [j for j, e in enumerate(E["eqs"]) if e["kind"] == "t"], "m": [j for j, e in enumerate(E["eqs"]) if e["kind"] == "m"]}
+    assert idx["t"] + idx["m"] == list(range(neq)), "harness: transition equations must precede measurement equations in M"
+
+    def match(i, j):
+        return all(_close(got[v][i][p], ref[v][j][p]) for v in ("dyn", "steady") for p in range(len(POINT_OFFSETS)))
+    for kind, js in idx.items():
+        if all(match(j, j) for j in js):
+            continue
+        perm_ok = None
+        if len(js) <= 6:
+            for perm in itertools.permutations(js):
+                if all(match(i, j) for i, j in zip(js, perm)):
+                    perm_ok = perm
+                    break
+        if perm_ok is not None:
+            labels.append("equation_order_differs")
+            continue
+        for j in js:
+            if match(j, j):
+                continue
+            for v in ("dyn", "steady"):
+                for p in range(len(POINT_OFFSETS)):
+                    if not _close(got[v][j][p], ref[v][j][p]):
+                        pair = E["eqs"][j]["dyn"] if v == "dyn" or not E["eqs"][j]["steady"] else E["eqs"][j]["steady"]
+                        col.fail(f"equation_value:{v}",
+                                 f"{tag}: {v} equation #{j} ({'transition' if kind == 't' else 'measurement'}) at column t0{POINT_OFFSETS[p]:+d}"
+                                 f"{' (array call)' if p >= 2 else ''}: equator gives {got[v][j][p]!r}, rhs-lhs of the equation as written is "
+                                 f"{ref[v][j][p][0]!r} (bound {ref[v][j][p][1]:.1e}); lhs={canon(pair[0])} rhs={canon(pair[1])}\n{source}")
+                        break
+                else:
+                    continue
+                break
+            break
+    nj = sum(1 for v in ref for row in ref[v] for x in row if x is None)
+    if nj:
+        labels.append("some_values_not_judged")
+    return labels
+
+
+def _src(R):
+    return "--- source ---\n" + R.source + "\n--- context --- " + json.dumps(R.context, sort_keys=True)
+
+
+def run_one(col, M, E, recipe, seed, tag, inject=None):
+    """Render, build the model, compare with M.  Returns (renderer, obs, got) or raises Violation."""
+    ir = _ir()
+    R = Renderer(M, recipe, inject=inject).render()
+    try:
+        m = ir.Simultaneous.from_string(R.source, context=dict(R.context) if R.context or recipe["noise"][0] % 2 else None)
+    except Exception as exc:  # noqa: BLE001
+        raise Violation(f"from_string:raises:{type(exc).__name__}", f"{tag}: {type(exc).__name__}: {str(exc)[:300]}\n{_src(R)}")
+    obs = api("observe", observe, m)
+    if not compare_tables(col, obs, E, tag + "\n" + _src(R)):
+        return R, obs, None
+    eqd = [e["desc"] for e in E["eqs"]]
+    col.check(sorted(obs["eqdesc"]) == sorted(eqd), "descriptions:equations",
+              lambda: f"{tag}: equation descriptions {obs['eqdesc']}, declared {eqd}\n{_src(R)}")
+    lo, hi = shift_span(E)
+    t0 = -lo + 2
+    rows = make_data(E, seed, t0 + hi + 4)
+    got = equator_values(m, E, rows, t0, "equator")
+    ref = reference_values(E, rows, [t0 + o for o in POINT_OFFSETS])
+    labels = compare_values(col, got, ref, E, tag, _src(R))
+    R.value_labels = labels
+    return R, obs, got
+
+
+# ---------------------------------------------------------------------------
+# Sub-check: translate (oracle 1, 2, 3)
+# ---------------------------------------------------------------------------
+
+@st.composite
+def _translate_case(draw):
+    return {"model": draw(model_strategy()), "recipes": [draw(recipe_strategy()), draw(recipe_strategy())],
+            "seed": draw(st.integers(0, 2 ** 20))}
+
+
+def _model_labels(M):
+    out = []
+    if M["fam"]:
+        out.append("family_%d_level" % len(M["fam"]["tokens"]))
+    for it in M["items"]:
+        if it["type"] == "fam" and it["override"]:
+            out.append("family_override")
+    return out
+
+
+def _classify_translate(case):
+    labels = set(_model_labels(case["model"]))
+    nt = False
+    for r in case["recipes"]:
+        R = Renderer(case["model"], r).render()
+        labels |= R.labels
+        nt = nt or _nontrivial(R.labels)
+    return nt, sorted(labels)
+
+
+def _same(a, b):
+    if math.isnan(a) and math.isnan(b):
+        return True
+    if math.isinf(a) or math.isinf(b):
+        return a == b
+    return abs(a - b) <= 1e-9 * max(abs(a), abs(b)) + 1e-300
+
+
+def _check_translate(case):
+    M = case["model"]
+    E = expand_model(M)
+    col = Collector()
+    res = []
+    for i, r in enumerate(case["recipes"]):
+        res.append(run_one(col, M, E, r, case["seed"], f"recipe {i}"))
+    labels = []
+    (R0, o0, g0), (R1, o1, g1) = res
+    if o0 and o1:
+        for k in ("names", "all", "desc", "log"):
+            col.check(o0[k] == o1[k], f"metamorphic:{k}",
+                      lambda: f"two renderings of the same model differ in {k}: {o0[k]} vs {o1[k]}\n{_src(R0)}\n{_src(R1)}")
+    if g0 and g1 and not col.items:
+        diff = [(v, i, p) for v in g0 for i in range(len(g0[v])) for p in range(len(g0[v][i])) if not _same(g0[v][i][p], g1[v][i][p])]
+        reordered = any("equation_order_differs" in getattr(R, "value_labels", []) for R in (R0, R1))
+        if diff and not reordered:
+            v, i, p = diff[0]
+            col.fail("metamorphic:equation_value", f"two renderings of the same model: {v} equation #{i} evaluates to {g0[v][i][p]!r} and "
+                                                   f"{g1[v][i][p]!r}\n{_src(R0)}\n{_src(R1)}")
+    for R in (R0, R1):
+        labels += getattr(R, "value_labels", [])
+    col.done()
+    return {"labels": sorted(set(labels)), "nontrivial": True}
+
+
+# ---------------------------------------------------------------------------
+# Sub-check: preparser identity (oracle 4)
+# ---------------------------------------------------------------------------
+
+@st.composite
+def _identity_case(draw):
+    return {"model": draw(model_strategy(allow_pf=False)), "recipe": draw(recipe_strategy(macros=False))}
+
+
+def _classify_identity(case):
+    R = Renderer(case["model"], case["recipe"], inject={"no_bang": True}).render()
+    rich = any(lb.startswith("cm_") for lb in R.labels) and "sh_curly" in R.labels
+    return rich, sorted(lb for lb in R.labels if lb.startswith(("cm_", "sh_", "kw_", "sep_")))
+
+
+def _strip(text):
+    return re.sub(r"\s+", "", text)
+
+
+def _check_identity(case):
+    ir = _ir()
+    col = Collector()
+    M, r = case["model"], case["recipe"]
+    noisy = Renderer(M, r, inject={"no_bang": True}).render()
+    plain = Renderer(M, r, canonical=True, inject={"no_bang": True}).render()
+    out = api("preparser.from_string", ir.parsers.preparser.from_string, noisy.source)
+    col.check(isinstance(out, tuple) and len(out) == 2 and isinstance(out[0], str) and isinstance(out[1], dict),
+              "preparser:return_type", lambda: f"returned {type(out)}")
+    col.done()
+    text, info = out
+    expected = _strip(plain.source.replace("{", "[").replace("}", "]"))
+    col.check(_strip(text) == expected, "preparser:identity",
+              lambda: f"macro-free source changed by the preparser.\n--- source ---\n{noisy.source}\n--- preparsed (blanks removed) ---\n"
+                      f"{_strip(text)}\n--- expected ---\n{expected}")
+    col.check(info.get("preparsed_source") == text, "preparser:info", "info['preparsed_source'] differs from the returned text")
+    out2 = api("preparser.from_string", ir.parsers.preparser.from_string, plain.source)
+    col.check(_strip(out2[0]) == expected, "preparser:identity_plain",
+              lambda: f"plain source changed by the preparser.\n{plain.source}\n--- preparsed ---\n{out2[0]}")
+    col.done()
+
+
+# ---------------------------------------------------------------------------
+# Sub-check: unsure constructs ("correct" or "rejected with an exception")
+# ---------------------------------------------------------------------------
+
+UNSURE_KINDS = ["deep", "deep", "starstar", "sci", "curly_ctl", "subs_in_pf", "pf_space"]
+
+
+@st.composite
+def _unsure_case(draw):
+    kind = draw(st.sampled_from(UNSURE_KINDS))
+    M = draw(model_strategy(deep=kind == "deep"))
+    r = draw(recipe_strategy())
+    if kind == "curly_ctl":
+        r["for_eq"] = r["for_sum"] = True
+    if kind == "subs_in_pf":
+        r["n_subs"] = 2
+    return {"model": M, "recipe": r, "kind": kind, "seed": draw(st.integers(0, 2 ** 20))}
+
+
+def _unsure_present(case, R):
+    kind = case["kind"]
+    if kind == "deep":
+        E = expand_model(case["model"])
+        for e in E["eqs"]:
+            for a in e["dyn"] + (e["steady"] or []):
+                for n in ex.walk(a):
+                    if n[0] == "pf" and (need_depth(n[2], 0) > 1 or ex.has_op(n[2], ("pf",))):
+                        return True
+        return False
+    if kind == "subs_in_pf":
+        return bool(re.search(r"\b(?:diff|diff_log|difflog|pct|roc|mov_?sum|mov_?avg|mov_?prod|shift)\([^;]*\$", R.source))
+    return ("unsure_" + kind) in R.labels
+
+
+def _classify_unsure(case):
+    R = Renderer(case["model"], case["recipe"], inject={"kind": case["kind"]}).render()
+    return _unsure_present(case, R), ["kind_" + case["kind"]]
+
+
+def _check_unsure(case):
+    M = case["model"]
+    E = expand_model(M)
+    kind = case["kind"]
+    R = Renderer(M, case["recipe"], inject={"kind": kind}).render()
+    if not _unsure_present(case, R):
+        return {"labels": [f"{kind}:construct_absent"], "nontrivial": False}
+    col = Collector()
+    try:
+        run_one(col, M, E, case["recipe"], case["seed"], f"unsure construct {kind}", inject={"kind": kind})
+    except Violation as v:
+        rejected = [b for b, _ in v.items if ":raises:" in b]
+        if rejected and len(rejected) == len(v.items):
+            return {"labels": [f"{kind}:rejected:{rejected[0].split(':')[0]}"], "nontrivial": True}
+        raise Violation(items=[(f"unsure:{kind}:{b}", m) for b, m in v.items])
+    if col.items:
+        raise Violation(items=[(f"unsure:{kind}:{b}", m) for b, m in col.items])
+    return {"labels": [f"{kind}:accepted_and_correct"], "nontrivial": True}
+
+
+SUBCHECKS = [
+    HypSub("translate", _translate_case, _check_translate, _classify_translate, budget={"quick": 1400, "thorough": 40000}),
+    HypSub("preparser_identity", _identity_case, _check_identity, _classify_identity, budget={"quick": 600, "thorough": 10000}),
+    HypSub("unsure", _unsure_case, _check_unsure, _classify_unsure, budget={"quick": 500, "thorough": 10000}),
+]
+
+
+if __name__ == "__main__":
+    import sys
+    from vlib import env
+    env.setup()
+    doc = json.load(open(sys.argv[2]))
+    case = doc["case"]
+    recipes = case.get("recipes") or [case["recipe"]]
+    for r in recipes:
+        R = Renderer(case["model"], r, inject={"kind": case.get("kind")} if case.get("kind") else None).render()
+        print(_src(R))
+        print(sorted(R.labels))
+    print(json.dumps(expand_model(case["model"])["eqs"], indent=0)[:3000])
